@@ -10,7 +10,7 @@ BOOL-1  handlers of the broadcast boolean event balldevice_balls_available never
 import ast
 
 from sa.model import src, short, dotted, call_attr, kwarg, walk_local, AnalysisError, const_value
-from sa.helpers import feasible_paths, inloop_guards
+from sa.helpers import feasible_paths, inloop_guards, early_exits
 from sa.index import get_index
 
 OB = "mpf/devices/ball_device/outgoing_balls_handler.py"
@@ -220,6 +220,7 @@ def check(chk):
     _bounded_waits(chk, repo)
     _wakeups(chk, repo)
     _request_loop_and_self_cancel(chk, repo)
+    _actuation_and_playfield_requests(chk, repo)
 
     # ------------------------------------------------------------- BOOL-1
     n_h = 0
@@ -329,6 +330,61 @@ def _request_loop_and_self_cancel(chk, repo):
                 chk.ob("CANCEL-5", "%s cancels its own task last: nothing is awaited after self._task.cancel()" % fn.qualname, not aw,
                        fn.where(c), detail="awaited afterwards: %s" % [short(a.ast, 50) for a in aw[:3]], construct=fn.ident, text="await after self-cancel")
     chk.expect(n_c >= 1, "C05: the eject loop's self-cancel vanished")
+
+
+def _actuation_and_playfield_requests(chk, repo):
+    """ACT-5: every attempt acts on the mechanism.  In each coil-driven ejector, every path through eject_one_ball that returns passes a
+    call that drives the coil (pulse / enable / timed_enable / the hold coil's release); the event ejector posts every configured event.
+    An attempt that does nothing is still reported as an attempt (the handler waits, times out and retries): the device looks busy
+    forever and the ball is never delivered.
+    REQ-5 (playfield): Playfield.add_ball(balls=N) requests N balls on both routes: the direct route hands `balls` on, the
+    player-controlled route asks once per ball (the one-ball API takes no count)."""
+    base = repo.cls("mpf/devices/ball_device/ball_device_ejector.py", "BallDeviceEjector")
+    DRIVE = {"pulse", "enable", "timed_enable", "disable", "_disable_hold_coil"}
+    k = 0
+    for c in sorted(repo.subclasses(base), key=lambda c: c.ident):
+        f = c.methods.get("eject_one_ball")
+        if f is None:
+            continue
+        chk.analysed(f)
+        cfg = f.cfg()
+        k += 1
+        posts = [h for h in cfg.nodes if h.kind == "loop" and any(isinstance(x, ast.Call) and call_attr(x) == "post" for st in h.ast.body for x in ast.walk(st))]
+        if posts and not any(call_attr(x) in DRIVE for x in f.calls()):
+            h = posts[0]
+            ok = src(h.ast.iter).startswith("self.config[") and not early_exits(cfg, h) and cfg.must_pass(cfg.entry.id, [h.id]) is None
+            chk.ob("ACT-5", "%s.eject_one_ball posts every configured eject event" % c.name, ok, f.where(h.ast), construct=f.ident,
+                   text="event ejector posts all events")
+            continue
+        drive = [n.id for n in cfg.nodes if n.kind == "stmt" and any(call_attr(x) in DRIVE for x in n.calls())]
+        path = cfg.must_pass(cfg.entry.id, drive) if drive else [cfg.entry.id]
+        chk.ob("ACT-5", "every returning path of %s.eject_one_ball drives the coil" % c.name, path is None, f.where(), construct=f.ident,
+               detail="an attempt that fires nothing is still counted and timed: the handler retries forever and no ball leaves",
+               text="attempt drives the coil", path=cfg.fmt_path(path, f) if path and len(path) > 1 else None, nontrivial=True)
+    chk.floor("ACT-5", 4)
+    chk.expect(k >= 4, "C05: expected the four ejector implementations (pulse, enable, hold, event), found %d" % k)
+
+    f = repo.func("mpf/devices/playfield.py", "Playfield.add_ball")
+    chk.analysed(f)
+    cfg = f.cfg()
+    one = [(n, c) for n, c in cfg.calls_named("setup_player_controlled_eject")]
+    many = [(n, c) for n, c in cfg.calls_named("eject")]
+    chk.need(one and many, "REQ-5", "Playfield.add_ball asks the source device on both routes (eject / setup_player_controlled_eject)", f)
+    for n, c in many:
+        b = kwarg(c, "balls")
+        chk.ob("REQ-5", "the direct route hands the requested number of balls on", b is not None and src(b) == "balls", f.where(c),
+               construct=f.ident, text="add_ball eject(balls=balls)")
+    for n, c in one:
+        heads = [h for h in cfg.nodes if h.kind == "loop" and any(y is c for st in h.ast.body for y in ast.walk(st))]
+        ok = False
+        if heads:
+            h = heads[-1]
+            it = h.ast.iter
+            ok = isinstance(it, ast.Call) and isinstance(it.func, ast.Name) and it.func.id == "range" and [src(a) for a in it.args] == ["balls"] \
+                and not inloop_guards(cfg, n.id, h.id) and not early_exits(cfg, h)
+        chk.ob("REQ-5", "the player-controlled route asks once per requested ball (loop over range(balls))", ok, f.where(c), construct=f.ident,
+               detail="setup_player_controlled_eject sets up one eject; without the loop add_ball(balls=N) delivers one ball and reports success",
+               text="add_ball player-controlled once per ball")
 
 
 def _requests_sized_by_unclaimed(chk, repo):
@@ -723,6 +779,12 @@ def battery():
         M("hand-operated device waits for ever for any request", OB, "            if (self.ball_device.config['mechanical_eject'] or\n                    self.ball_device.config['player_controlled_eject_event']) and eject_request.player_controlled:\n                timeout = None", "            if (self.ball_device.config['mechanical_eject'] or\n                    self.ball_device.config['player_controlled_eject_event']):\n                timeout = None", "TIMEOUT-5"),
         M("confirm wait unbounded", OB, "        timeout = eject_request.eject_timeout\n        self.info_log(\"Wait for confirm with timeout %s\", timeout)", "        timeout = None\n        self.info_log(\"Wait for confirm with timeout %s\", timeout)", "TIMEOUT-5"),
         M("twin: timeout condition with operands swapped", OB, "            if (self.ball_device.config['mechanical_eject'] or\n                    self.ball_device.config['player_controlled_eject_event']) and eject_request.player_controlled:\n                timeout = None", "            if eject_request.player_controlled and (self.ball_device.config['player_controlled_eject_event'] or\n                    self.ball_device.config['mechanical_eject']):\n                timeout = None", None),
+        M("later pulse attempts fire nothing without a retry pulse", "mpf/devices/ball_device/pulse_coil_ejector.py", "        elif eject_try >= self.config['retries_before_increasing_pulse'] and self.config['eject_coil_retry_pulse']:\n            # multiple failed ejects -> increase pulse strength\n            self.config['eject_coil'].pulse(", "        elif eject_try >= self.config['retries_before_increasing_pulse']:\n          if self.config['eject_coil_retry_pulse']:\n            self.config['eject_coil'].pulse(", "ACT-5"),
+        M("enable ejector only arms the switch-off", "mpf/devices/ball_device/enable_coil_ejector.py", "        self.config['eject_coil'].enable(max_wait_ms=self.config['eject_coil_max_wait_ms'])\n        self.delay.reset(", "        if eject_time:\n            self.config['eject_coil'].enable(max_wait_ms=self.config['eject_coil_max_wait_ms'])\n        self.delay.reset(", "ACT-5"),
+        M("event ejector posts the first event only", "mpf/devices/ball_device/event_ejector.py", "            self.machine.events.post(event, is_jammed=is_jammed, eject_try=eject_try, balls_in_device=balls_in_device)\n", "            self.machine.events.post(event, is_jammed=is_jammed, eject_try=eject_try, balls_in_device=balls_in_device)\n            break\n", "ACT-5"),
+        M("player-controlled add_ball asks once", "mpf/devices/playfield.py", "            for _ in range(balls):\n                source_device.setup_player_controlled_eject(target=self)", "            source_device.setup_player_controlled_eject(target=self)", "REQ-5"),
+        M("direct add_ball asks for one ball", "mpf/devices/playfield.py", "            source_device.eject(balls=balls, target=self)", "            source_device.eject(target=self)", ("REQ-5", "DROP-0")),
+        M("twin: pulse ejector default branch first", "mpf/devices/ball_device/pulse_coil_ejector.py", "        else:\n            # default pulse\n            self.config['eject_coil'].pulse(max_wait_ms=max_wait_ms)\n", "        else:\n            coil = self.config['eject_coil']\n            coil.pulse(max_wait_ms=max_wait_ms)\n", None),
         M("only the first ball-count waiter is woken", BC, "            if not future.done():\n                future.set_result(count)\n", "            if not future.done():\n                future.set_result(count)\n                break\n", "WAKE-5"),
         M("ball-count waiters forgotten before they are woken", BC, "        for future in self._ball_count_changed_futures:\n            if not future.done():\n                future.set_result(count)\n\n        # reset futures\n        self._ball_count_changed_futures = []", "        waiting = self._ball_count_changed_futures = []\n        for future in self._ball_count_changed_futures:\n            if not future.done():\n                future.set_result(count)", "WAKE-5"),
         M("timed-out incoming ball stays expected", IB, "                self._incoming_balls.remove(incoming_ball)\n", "                pass\n", "TIMEOUT-5"),
